@@ -55,10 +55,25 @@ pub struct Scenario {
     /// initial balances of the externally owned accounts (default 10^18)
     pub balances: Vec<(usize, U256)>,
     pub nonces: Vec<(usize, u64)>,
+    /// (address, slot) of every model location (default: holder / holder2 by position; `loc_map` overrides)
+    pub slots: Vec<(Address, U256)>,
+}
+
+#[derive(Clone, Debug)]
+pub struct AuthSpec {
+    pub authority: String,
+    pub target: String,
+    pub nonce: u64,
+    pub valid: bool,
 }
 
 #[derive(Clone, Debug)]
 pub struct TxSpec {
+    /// raw scenarios: named sender / receiver (`e3`, account name, `ben`, `pc`), calldata, create, authorisations
+    pub from_name: Option<String>,
+    pub data: Option<Vec<u8>>,
+    pub create: bool,
+    pub auth: Vec<AuthSpec>,
     /// index of an externally owned account, or usize::MAX for the block beneficiary
     pub from: usize,
     /// `e<k>` for an externally owned account, `pc` for the driver (then `prog` selects the program)
@@ -68,6 +83,50 @@ pub struct TxSpec {
     pub gas_limit: u64,
     pub gas_price: u128,
     pub prog: u8,
+}
+
+pub fn hex_bytes(h: &str) -> Vec<u8> {
+    let h = h.trim_start_matches("0x");
+    (0..h.len() / 2).map(|i| u8::from_str_radix(&h[2 * i..2 * i + 2], 16).expect("hex")).collect()
+}
+
+/// Address of a name used in raw scenarios.
+pub fn named(s: &Scenario, name: &str) -> Address {
+    if let Some(k) = name.strip_prefix('e').and_then(|k| k.parse::<usize>().ok()) {
+        return account::mock_eoa_address(k);
+    }
+    match name {
+        "ben" => account::MINER_ADDRESS,
+        "pc" => driver(),
+        "h" => holder(),
+        "h2" => holder2(),
+        "rcv" => receiver(),
+        "zero" => Address::ZERO,
+        n if n.starts_with("c2:") => {
+            // c2:<factory name>:<init code hex>  (salt 0)
+            let mut it = n.splitn(3, ':');
+            it.next();
+            let factory = named(s, it.next().unwrap());
+            let init = hex_bytes(it.next().unwrap());
+            let mut buf = vec![0xff];
+            buf.extend_from_slice(factory.as_slice());
+            buf.extend_from_slice(&[0u8; 32]);
+            buf.extend_from_slice(revm_primitives::keccak256(&init).as_slice());
+            Address::from_slice(&revm_primitives::keccak256(buf)[12..])
+        }
+        n if n.starts_with("c1:") => {
+            // c1:<sender name>:<nonce>  (CREATE address)
+            let mut it = n.splitn(3, ':');
+            it.next();
+            let sender = named(s, it.next().unwrap());
+            sender.create(it.next().unwrap().parse().unwrap())
+        }
+        _ => {
+            let idx = s.raw["accounts"].as_array().and_then(|l| l.iter().position(|a| a["name"].as_str() == Some(name)))
+                .unwrap_or_else(|| panic!("unknown account name {name}"));
+            Address::from(U160::from(970_000u64 + idx as u64))
+        }
+    }
 }
 
 fn u256_of(v: &Value) -> U256 {
@@ -109,7 +168,8 @@ impl Scenario {
                     .collect()
             })
             .collect();
-        Scenario {
+        let mut scn = Scenario {
+            slots: vec![],
             name: v["name"].as_str().unwrap_or("?").to_owned(),
             n: v["n"].as_u64().unwrap() as usize,
             pre: locs.iter().map(|l| v["pre"][l].as_u64().unwrap_or(0)).collect(),
@@ -133,6 +193,15 @@ impl Scenario {
             txs: v["txs"].as_array().map(|l| {
                 l.iter()
                     .map(|t| TxSpec {
+                        from_name: t["from"].as_str().map(|x| x.to_owned()),
+                        data: t["data"].as_str().map(|h| hex_bytes(h)),
+                        create: t["to"].is_null() && t["create"].as_bool() == Some(true),
+                        auth: t["auth"].as_array().map_or(vec![], |l| l.iter().map(|x| AuthSpec {
+                            authority: x["authority"].as_str().unwrap().to_owned(),
+                            target: x["target"].as_str().unwrap_or("zero").to_owned(),
+                            nonce: x["nonce"].as_u64().unwrap_or(0),
+                            valid: x["valid"].as_bool().unwrap_or(true),
+                        }).collect()),
                         from: t["from"].as_u64().map_or(usize::MAX, |x| x as usize),
                         to: t["to"].as_str().unwrap_or("pc").to_owned(),
                         value: u256_of(&t["value"]),
@@ -152,7 +221,14 @@ impl Scenario {
             locs,
             progs,
             raw: v.clone(),
-        }
+        };
+        scn.slots = (0..scn.locs.len())
+            .map(|l| match v["loc_map"][&scn.locs[l]].as_array() {
+                Some(m) => (named(&scn, m[0].as_str().unwrap()), U256::from(m[1].as_u64().unwrap())),
+                None => slot_of(&scn.locs, l),
+            })
+            .collect();
+        scn
     }
 }
 
@@ -235,6 +311,12 @@ pub fn names(s: &Scenario) -> Vec<(String, String)> {
     for i in 0..(s.n + 6) {
         m.push((format!("{:x}", account::mock_eoa_address(i)), format!("e{i}")));
     }
+    if let Some(list) = s.raw["accounts"].as_array() {
+        for acc in list {
+            let n = acc["name"].as_str().unwrap();
+            m.push((format!("{:x}", named(s, n)), n.to_owned()));
+        }
+    }
     m
 }
 
@@ -243,11 +325,10 @@ pub fn loc_name(s: &Scenario, raw: &str) -> String {
     let parts: Vec<&str> = raw.split(':').collect();
     let nm = names(s);
     let addr = nm.iter().find(|(a, _)| a == parts[1]).map_or(parts[1].to_owned(), |(_, n)| n.clone());
-    if parts[0] == "S" && (addr == "h" || addr == "h2") {
-        if let Ok(i) = usize::from_str_radix(parts[2], 16) {
-            let q = addr == "h2";
-            if let Some(name) = s.locs.iter().filter(|n| n.starts_with('q') == q).nth(i) {
-                return name.clone();
+    if parts[0] == "S" {
+        for (l, (a, k)) in s.slots.iter().enumerate() {
+            if format!("{a:x}") == parts[1] && format!("{k:x}") == parts[2] {
+                return s.locs[l].clone();
             }
         }
     }
@@ -293,13 +374,8 @@ pub fn database(s: &Scenario) -> InMemoryDB {
         (KECCAK_EMPTY, None, U256::ZERO)
     };
     for q in [false, true] {
-        let storage = s
-            .locs
-            .iter()
-            .enumerate()
-            .filter(|(_, n)| n.starts_with('q') == q)
-            .map(|(l, _)| (slot_of(&s.locs, l).1, U256::from(s.pre[l])))
-            .collect();
+        let me = if q { holder2() } else { holder() };
+        let storage = s.slots.iter().enumerate().filter(|(_, (a, _))| *a == me).map(|(l, (_, k))| (*k, U256::from(s.pre[l]))).collect();
         accounts.insert(
             if q { holder2() } else { holder() },
             PlainAccount {
@@ -320,14 +396,54 @@ pub fn database(s: &Scenario) -> InMemoryDB {
             storage: Default::default(),
         },
     );
+    if let Some(list) = s.raw["accounts"].as_array() {
+        for acc in list {
+            let addr = named(s, acc["name"].as_str().unwrap());
+            let code = if let Some(d) = acc["delegate"].as_str() {
+                Some(Bytecode::new_eip7702(named(s, d)))
+            } else {
+                acc["code"].as_str().map(|h| Bytecode::new_raw(hex_bytes(h).into()))
+            };
+            let code_hash = code.as_ref().map_or(KECCAK_EMPTY, |c| c.hash_slow());
+            if let Some(c) = &code {
+                bytecodes.insert(code_hash, c.clone());
+            }
+            accounts.insert(addr, PlainAccount {
+                info: AccountInfo { nonce: acc["nonce"].as_u64().unwrap_or(1), balance: u256_of(&acc["balance"]), code_hash, code, ..Default::default() },
+                storage: acc["storage"].as_object().map_or(Default::default(), |m| {
+                    m.iter().map(|(k, v)| (U256::from_str_radix(k, 10).unwrap(), u256_of(v))).collect()
+                }),
+            });
+        }
+    }
     InMemoryDB::new(accounts, bytecodes, HashMap::default())
 }
 
 pub fn transactions(s: &Scenario) -> Vec<TxEnv> {
     if let Some(txs) = &s.txs {
+        use revm_context::{either::Either, transaction::{Authorization, RecoveredAuthority, RecoveredAuthorization}};
         return txs
             .iter()
-            .map(|t| TxEnv {
+            .map(|t| {
+                if let Some(from) = &t.from_name {
+                    return TxEnv {
+                        tx_type: if t.auth.is_empty() { 0 } else { 4 },
+                        caller: named(s, from),
+                        kind: if t.create { TxKind::Create } else { TxKind::Call(named(s, &t.to)) },
+                        data: Bytes::from(t.data.clone().unwrap_or_else(|| vec![t.prog])),
+                        value: t.value,
+                        gas_limit: t.gas_limit,
+                        gas_price: t.gas_price,
+                        nonce: t.nonce,
+                        authorization_list: t.auth.iter().map(|a| {
+                            let auth = Authorization { chain_id: U256::ZERO, address: named(s, &a.target), nonce: a.nonce };
+                            Either::Right(RecoveredAuthorization::new_unchecked(auth,
+                                if a.valid { RecoveredAuthority::Valid(named(s, &a.authority)) } else { RecoveredAuthority::Invalid }))
+                        }).collect(),
+                        ..Default::default()
+                    };
+                }
+                TxEnv {
                 caller: if t.from == usize::MAX { account::MINER_ADDRESS } else { account::mock_eoa_address(t.from) },
                 kind: TxKind::Call(match t.to.strip_prefix('e').and_then(|k| k.parse::<usize>().ok()) {
                     Some(k) => account::mock_eoa_address(k),
@@ -341,7 +457,7 @@ pub fn transactions(s: &Scenario) -> Vec<TxEnv> {
                 gas_price: t.gas_price,
                 nonce: t.nonce,
                 ..Default::default()
-            })
+            }})
             .collect();
     }
     (0..s.n)
@@ -360,23 +476,23 @@ pub fn transactions(s: &Scenario) -> Vec<TxEnv> {
 /// The P-driver: interprets program `data[0]` through the journal-aware facade.
 pub fn driver_precompile(s: &Scenario) -> DynParallelPrecompile {
     let progs = s.progs.clone();
-    let locs = s.locs.clone();
+    let slots = s.slots.clone();
     DynParallelPrecompile::new(PrecompileId::Custom("verif-driver".into()), move |input| {
         let reservoir = input.reservoir();
-        let prog = &progs[input.data()[0] as usize];
+        let prog = &progs[input.data().first().copied().unwrap_or(0) as usize];
         let mut regs = [0u64; 3];
         let mut ip = 0usize;
         while ip < prog.len() {
             match &prog[ip] {
                 Ins::R(l, r) => {
-                    let (a, k) = slot_of(&locs, *l);
+                    let (a, k) = slots[*l];
                     let v = input.state().sload(a, k)?.data;
                     regs[*r] = v.try_into().unwrap_or(u64::MAX);
                     ip += 1;
                 }
                 Ins::W(l, r, add) => {
                     let v = if *r == 0 { 0 } else { regs[*r] } + add;
-                    let (a, k) = slot_of(&locs, *l);
+                    let (a, k) = slots[*l];
                     input.state().sstore(a, k, U256::from(v))?;
                     ip += 1;
                 }
@@ -400,10 +516,27 @@ pub fn driver_precompile(s: &Scenario) -> DynParallelPrecompile {
 }
 
 pub fn cfg_env_of(s: &Scenario) -> CfgEnv {
-    let mut c = CfgEnv::new_with_spec(SpecId::SHANGHAI);
+    let spec = match s.raw["spec"].as_str().unwrap_or("SHANGHAI") {
+        "FRONTIER" => SpecId::FRONTIER,
+        "SPURIOUS_DRAGON" => SpecId::SPURIOUS_DRAGON,
+        "BERLIN" => SpecId::BERLIN,
+        "LONDON" => SpecId::LONDON,
+        "CANCUN" => SpecId::CANCUN,
+        "PRAGUE" => SpecId::PRAGUE,
+        "OSAKA" => SpecId::OSAKA,
+        _ => SpecId::SHANGHAI,
+    };
+    let mut c = CfgEnv::new_with_spec(spec);
     c.disable_nonce_check = s.raw["disable_nonce_check"].as_bool().unwrap_or(false);
     c
 }
+pub fn policy_of_scenario(s: &Scenario) -> DelegatedSafetyConfig {
+    DelegatedSafetyConfig {
+        forbid_delegated_create: s.raw["policy"]["create"].as_bool().unwrap_or(false),
+        reserve_delegated_balance: s.raw["policy"]["reserve"].as_bool().unwrap_or(false),
+    }
+}
+
 pub fn block_env() -> BlockEnv {
     BlockEnv { beneficiary: account::MINER_ADDRESS, ..Default::default() }
 }
@@ -541,7 +674,8 @@ pub fn bundle_diff(left: &BundleState, right: &BundleState) -> Option<String> {
     let lc: std::collections::BTreeSet<_> = left.contracts.keys().collect();
     let rc: std::collections::BTreeSet<_> = right.contracts.keys().collect();
     if lc != rc {
-        return Some("bundle contracts differ".into());
+        let show = |b: &BundleState| b.state.iter().map(|(a, x)| format!("{a:x}: code={:?} orig={:?} status={:?}", x.info.as_ref().map(|i| i.code.as_ref().map(|c| c.len())), x.original_info.as_ref().map(|i| i.code.as_ref().map(|c| c.len())), x.status)).collect::<Vec<_>>();
+        return Some(format!("bundle contracts differ: in-order revm {lc:?} vs grevm {rc:?}; revm accounts {:?}; grevm accounts {:?}", show(left), show(right)));
     }
     if left.reverts.len() != right.reverts.len() {
         return Some("bundle revert block count differs".into());
@@ -593,7 +727,7 @@ pub fn run_scheduler(s: &Scenario, cfg: Config, workers: usize, force_sequential
             concurrency_level: workers,
             force_sequential,
             min_parallel_txs: 0,
-            delegated_safety: DelegatedSafetyConfig::disabled(),
+            delegated_safety: policy_of_scenario(s),
         },
     );
     verif::install(ctl.clone());
@@ -621,6 +755,80 @@ pub fn run_scheduler(s: &Scenario, cfg: Config, workers: usize, force_sequential
         outcomes,
         bundle,
     }
+}
+
+/// Plain (uncontrolled) run of the real scheduler with an explicit configuration.
+pub fn run_plain(s: &Scenario, workers: usize, force_sequential: bool, min_parallel: usize, fallback_entry: bool) -> (Result<(), (usize, String)>, Vec<TxExecutionOutcome>, BundleState) {
+    let db = Arc::new(FaultDb::new(database(s), s.fault.clone()));
+    let scheduler = Scheduler::new_with_runtime_config(
+        cfg_env_of(s),
+        block_env(),
+        Arc::new(transactions(s)),
+        ParallelState::new(db, true, false),
+        Some(Arc::new(vec![(driver(), driver_precompile(s))])),
+        GrevmConfig { concurrency_level: workers, force_sequential, min_parallel_txs: min_parallel, delegated_safety: policy_of_scenario(s) },
+    );
+    let r = if fallback_entry { scheduler.fallback_sequential() } else { scheduler.execute() };
+    let (outcomes, mut state) = scheduler.take_result_and_state();
+    let bundle = state.parallel_take_bundle(BundleRetention::Reverts);
+    (r.map_err(|e| (e.txid, format!("{:?}", e.error))), outcomes, bundle)
+}
+
+pub fn outcome_kind(o: &TxExecutionOutcome) -> &'static str {
+    match o {
+        TxExecutionOutcome::Skipped(_) => "skipped",
+        TxExecutionOutcome::Executed(revm_context::result::ExecutionResult::Success { .. }) => "success",
+        TxExecutionOutcome::Executed(revm_context::result::ExecutionResult::Revert { .. }) => "revert",
+        TxExecutionOutcome::Executed(revm_context::result::ExecutionResult::Halt { .. }) => "halt",
+    }
+}
+
+/// Monitors for blocks run with a delegated-account policy: stock revm is no oracle; the rule
+/// model's expectations (`expect`) and the agreement of the execution paths are.
+pub fn policy_monitors(s: &Scenario, o: &SchedOutcome, other: &(Result<(), (usize, String)>, Vec<TxExecutionOutcome>, BundleState)) -> Vec<(String, String)> {
+    let prop = s.raw["prop"].as_str().unwrap_or("C06").to_owned();
+    let mut v = Vec::new();
+    if o.result.is_ok() != other.0.is_ok() || o.outcomes != other.1 {
+        v.push(("C06".into(), format!("parallel and sequential paths disagree under the policy: {:?} / {} outcomes vs {:?} / {} outcomes; kinds {:?} vs {:?}",
+            o.result, o.outcomes.len(), other.0, other.1.len(), o.outcomes.iter().map(outcome_kind).collect::<Vec<_>>(), other.1.iter().map(outcome_kind).collect::<Vec<_>>())));
+    } else if let Some(d) = bundle_diff(&other.2, &o.bundle) {
+        v.push(("C06".into(), format!("parallel and sequential paths leave different state under the policy: {d}")));
+    }
+    if let Some(exp) = s.raw["expect"]["kinds"].as_object() {
+        for (k, want) in exp {
+            let k: usize = k.parse().unwrap();
+            let have = o.outcomes.get(k).map_or("missing", outcome_kind);
+            if Some(have) != want.as_str() {
+                v.push((prop.clone(), format!("transaction {k} is reported as {have}, the rule model expects {want}")));
+            }
+        }
+    }
+    if let Some(list) = s.raw["expect"]["final"].as_array() {
+        for e in list {
+            // [account, "nonce" | "balance" | slot number, expected decimal]
+            let a = named(s, e[0].as_str().unwrap());
+            let acct = o.bundle.state.get(&a);
+            let want = e[2].as_str().map_or_else(|| U256::from(e[2].as_u64().unwrap_or(0)), |d| U256::from_str_radix(d, 10).unwrap());
+            let have = match e[1].as_str() {
+                Some("nonce") => acct.and_then(|x| x.info.as_ref()).map(|i| U256::from(i.nonce)),
+                Some("balance") => acct.and_then(|x| x.info.as_ref()).map(|i| i.balance),
+                _ => acct.and_then(|x| x.storage.get(&U256::from(e[1].as_u64().unwrap()))).map(|sl| sl.present_value),
+            };
+            // an account or slot absent from the bundle is unchanged: compare with the pre-state
+            let have = have.unwrap_or_else(|| {
+                let db = database(s);
+                match e[1].as_str() {
+                    Some("nonce") => db.basic_ref(a).unwrap().map_or(U256::ZERO, |i| U256::from(i.nonce)),
+                    Some("balance") => db.basic_ref(a).unwrap().map_or(U256::ZERO, |i| i.balance),
+                    _ => db.storage_ref(a, U256::from(e[1].as_u64().unwrap())).unwrap(),
+                }
+            });
+            if have != want {
+                v.push((prop.clone(), format!("final {} of {} is {have}, the rule model expects {want}", e[1], e[0])));
+            }
+        }
+    }
+    v
 }
 
 /// Harness-side monitors: the property statements evaluated on one observed run.
@@ -751,7 +959,11 @@ pub fn trace_events(s: &Scenario, rec: &RunRecord) -> Vec<Value> {
     let mut out = Vec::new();
     for e in rec.events.iter().filter(|e: &&Event| e.group & verif::group::SCHED != 0 && KEEP.contains(&e.label)) {
         // the beneficiary history is not part of the scheduler specification (Beneficiary.tla)
-        if matches!(e.label, "R_Read") && e.string("ver").is_some_and(|v| v.starts_with("ben")) {
+        if matches!(e.label, "R_Read") && let Some(v) = e.string("ver") && v.starts_with("ben") {
+            // a read blocked by an unresolved history entry still makes the attempt an estimate
+            if let Some(j) = v.strip_prefix("benblock:") {
+                out.push(json!({"l": "R_BenBlock", "t": e.thread, "blocker": j.parse::<i64>().unwrap_or(-1)}));
+            }
             continue;
         }
         if e.label == "V_Scan" && e.string("had").is_some_and(|v| v.starts_with("ben")) {
